@@ -229,7 +229,10 @@ def make_inputs(tier, seed):
                 continue
             _OTHER[json.dumps(spec, sort_keys=True)] = got
             for k in range(len(got)):
-                yield {"src": "gen", "py": "3.11", "spec": spec, "site": k}
+                d = {"src": "gen", "py": "3.11", "spec": spec, "site": k}
+                if spec.get("bigconsts"):
+                    d["_kind"] = "raw"
+                yield d
     # locals fallback: contexts of suspended frames (static description + locals -> final varname)
     for spec in progs[: (len(specials()) + (80 if tier == "quick" else 1200))]:
         if spec.get("static_only"):
